@@ -190,6 +190,8 @@ def generate(unit_dir, mustfail=False, mutate=None, variant=None, template='unit
                     spec['sig'] = txt
                 elif k == 'entry':
                     spec['entry'] = txt
+                elif k == 'tail':
+                    spec['tail'] = txt
                 elif k == 'loop':
                     oo = parse_opts(hdr[2:])
                     spec['loops'][int(hdr[1])] = dict(inv=txt, iter=oo.get('iter'))
